@@ -15,7 +15,7 @@ for i in ids:
     if i in claimed:
         mm=meta["claimed"].get(i,{})
         m["checks"].append({"property_id":i,"quick_cmd":f"./check {i} quick","thorough_cmd":f"./check {i} thorough",
-          "evidence_file":f"/verif/evidence/{i}.json","replay_cmd_template":"./bin/bngsym replay {path}","engine":"bngsym",
+          "evidence_file":f"/verif/evidence/{i}.json","replay_cmd_template":"./replay {path}","engine":"bngsym",
           "level_claimed":{"category":claimed[i].get("level","model_checking"),"text":mm.get("text","bounded symbolic execution of the real code; see DESIGN.md"),"design_ref":mm.get("design_ref","DESIGN.md §5 "+i)},
           "level_note":mm.get("note","bounds and stubs as listed in the evidence file; go/ssa + engine semantics + z3 trusted"),
           "technique":mm.get("technique","SMT-based bounded symbolic execution of go/ssa (solver decides every assertion over all inputs within the bound)")})
